@@ -267,3 +267,6 @@ fn str_slice_no_panic_4() {
 fn str_slice_no_panic_6() {
     str_slice_harness::<6>()
 }
+
+// Concrete playback (./check <id> --replay): Kani's generated unit test is written to this file, which is empty otherwise.
+include!("/verif/build/gen/playback_rustemo_lib.rs");
